@@ -5,12 +5,18 @@ import wsutil
 
 def run(tier):
     c = lib.Check("C12", tier)
-    d = 4 if tier == "thorough" else 3
+    d = 3
     c.assumptions = list(wsutil.WS_ASSUMPTIONS)
     c.bounds = {"writers_x_messages": ["1x2", "1x3"] + (["2x1", "2x2", "3x1"] if tier == "thorough" else []), "delay_bound": d,
                 "closing_events": "none / local close without reason / with reason / peer close or EOF, plus a write failure at the k-th write (k symbolic 0..3)"}
     entries = ["H_C12_W1x2", "H_C12_W1x3"] + (["H_C12_W2x1", "H_C12_W2x2", "H_C12_W3x1"] if tier == "thorough" else [])
     res, meta = lib.run_engine("ws", entries, sched="explore", preempt=d, cuts=wsutil.WS_CUTS, loop=40, paths=5000000)
     c.add_run("write-vs-close", res, meta)
+    if tier == "thorough":
+        # one more delay for the two smallest configurations (the 5-configuration sweep at D=4 needs > 2 h)
+        c.bounds["delay_bound_small_configurations"] = 4
+        res4, meta4 = lib.run_engine("ws", ["H_C12_W1x2", "H_C12_W2x1"], sched="explore", preempt=4, cuts=wsutil.WS_CUTS, loop=40, paths=8000000)
+        c.add_run("write-vs-close-d4", res4, meta4)
+        wsutil.handle_ws(c, res4, "H_C12_Native", ("C12.",))
     wsutil.handle_ws(c, res, "H_C12_Native", ("C12.",))
     return c.finish()
